@@ -186,6 +186,14 @@ impl Args {
         if cfg!(miri) {
             a.threads = 1;
         }
+        if let Some(n) = a.extra.get("mshards") {
+            let n: usize = n.parse().expect("mshards");
+            let i: usize = a.extra.get("mshard").map(|s| s.parse().expect("mshard")).unwrap_or(0);
+            assert!(i < n);
+            MSHARDS.store(n, std::sync::atomic::Ordering::Relaxed);
+            MSHARD.store(i, std::sync::atomic::Ordering::Relaxed);
+            a.threads = 1;
+        }
         a
     }
     pub fn thorough(&self) -> bool {
@@ -208,9 +216,14 @@ impl Args {
 }
 
 /// run `f(shard, nshards)` on `threads` threads
+/// process-level sharding for single-threaded runs (Miri, valgrind): `mshard=i mshards=n` makes this process
+/// execute exactly the work that thread i of n would execute
+pub static MSHARD: std::sync::atomic::AtomicUsize = std::sync::atomic::AtomicUsize::new(0);
+pub static MSHARDS: std::sync::atomic::AtomicUsize = std::sync::atomic::AtomicUsize::new(1);
+
 pub fn parallel<F: Fn(usize, usize) + Sync>(threads: usize, f: F) {
     if threads <= 1 {
-        f(0, 1);
+        f(MSHARD.load(std::sync::atomic::Ordering::Relaxed), MSHARDS.load(std::sync::atomic::Ordering::Relaxed));
         crate::guard::idle();
         return;
     }
